@@ -311,7 +311,18 @@ def batches(ctx):
                 elif op[0] == "L":
                     out.append(["l", canon_part(ds.to_list()), len(ds)])
                 else:
-                    out.append(["B", sorted([canon_part(b.to_list()), len(b)] for b in ds.binary())])
+                    before = canon_part(ds.to_list())
+                    res = ds.binary()
+                    item = ["B", sorted([canon_part(b.to_list()), len(b)] for b in res)]
+                    # the coarsenings are structures of their own: merging the two blocks of each one must leave
+                    # the structure they were derived from (and one another) untouched
+                    for b in res:
+                        groups = b.to_list()
+                        if len(groups) == 2:
+                            b.unite(groups[0][0], groups[1][0])
+                    if canon_part(ds.to_list()) != before or any(b is ds for b in res):
+                        item = ["B", [[[[0]], -7]]]       # sentinel no partition can produce: the results were aliased
+                    out.append(item)
         except Exception as e:  # noqa: BLE001 - mapped to the model's error values
             return {"err": exc_name(e)}
         return {"ok": out}
@@ -366,6 +377,8 @@ def batches(ctx):
                     two = [x for i, g in enumerate(bl) if not bits >> i & 1 for x in g]
                     if one and two and min(one) < min(two):
                         want.append([[sorted(one), sorted(two)], 2])
+                if o[1] == [[[[0]], -7]]:
+                    return False, f"op {k}: merging the two blocks of a coarsening returned by binary() changed the structure it was derived from (the results are not independent copies)"
                 if sorted(want) != o[1]:
                     return False, f"op {k}: binary() should list exactly {len(want)} two-block coarsenings, each once; got {o[1]}"
         return True, "history agrees with the naive partition"
